@@ -619,9 +619,11 @@ func (h *Sources) match(match *core.Line, cur *core.Cursor, usePos, fwd, regex b
 			return line, pos, found
 		}
 
+		// The search text is made of the characters before the cursor
+		// (the cursor position is a number of characters, not of bytes).
 		cline := string(*match)
 		if cur != nil && cur.Pos() < match.Len() {
-			cline = cline[:cur.Pos()]
+			cline = string((*match)[:cur.Pos()])
 		}
 
 		// Matching: either as substring (regex) or since beginning.
